@@ -153,6 +153,7 @@ struct AsyncEngine : run::Engine {
 		return {{"svc", 0}, {"transport", 0}, {"cache", 8}, {"maxreq", 1000}, {"snd_to", 10}, {"rcv_to", 10}, {"con_to", 10}, {"pdu_ver", 2}, {"mac_alg", 1},
 		        {"keylen", 8}, {"loginlen", 6}, {"conf_cb", 0}, {"epoch", 0}, {"epoch_ms", 0}, {"loglevel", 0}};
 	}
+	std::string state_measure() const override { return "(multiset of handle states, connection state, reassembly fill bucket, pending server requests, cache occupancy, id generation mod 4) after every op"; }
 	std::string nontrivial_rule() const override { return "a run is non-trivial when at least one injected fault or adversarial server action fired while at least one accepted request was outstanding; distinct = distinct event-log hash"; }
 };
 
